@@ -1,11 +1,12 @@
 import Pysmi.Generated.Skeletons
 /-!
-# Pins (C01): the control skeletons the hand-written models were written against
+# Pins (C01): the control skeletons the hand-written models and oracles were written against
 
-`Generated/Skeletons.lean` is rewritten from the source on every run (calls other than logging and pure builtins, raises with
-their exception class, returns, loops, branches, handlers - in source order).  Each hand-written model follows one of these
-methods; the literal below is the skeleton it was written against.  A structural change of the method breaks its pin - which
-is not by itself a violation: the check then searches model and code for a failing input and reports what it finds.
+`Generated/Skeletons.lean` is rewritten from the source on every run (calls other than logging, string plumbing and pure
+builtins, raises with their exception class, returns, loops, branches, handlers - in source order; for the scripts also the
+exit status of every `sys.exit`).  A structural change of one of these methods breaks its pin - which is not by itself a
+violation: the check then searches model and code for a failing input and reports what it finds.
+(Literals written by harness/tools/repin.py when the models were last brought in line with the source.)
 -/
 namespace Pysmi.Pins.SkelC01
 open Pysmi.Generated.Skeletons
@@ -15,8 +16,8 @@ theorem pin_symtableGenCode : symtableGenCode = [
     "call:kwargs.get", "call:self._rows.clear", "call:self._cols.clear", "call:self._parentOids.clear",
     "call:self._postponedSyms.clear", "call:self._importMap.clear", "call:self.genImports", "loop", "if",
     "call:self.handlersTable[declr[0]]", "call:self.prepData", "if", "raise:error.PySmiSemanticError",
-    "call:error.PySmiSemanticError", "call:', '.join", "loop", "if", "raise:error.PySmiSemanticError",
-    "call:error.PySmiSemanticError", "call:','.join", "return:value", "call:MibInfo"] := by decide
+    "call:error.PySmiSemanticError", "loop", "if", "raise:error.PySmiSemanticError", "call:error.PySmiSemanticError",
+    "return:value", "call:MibInfo"] := by decide
 
 /-- SymtableCodeGen.regPostponedSyms (pysmi/codegen/symtable.py) -/
 theorem pin_regPostponed : regPostponed = [
